@@ -360,7 +360,7 @@ def collect(rep, prop, tier, seed, exe, replay=None):
         progs, cases, hist = gen(rng, tier)
     work = os.path.join(CACHE, "work", "%s-%s" % (prop, tier))
     records, build_fail = run_sharded(progs, cases, configs, work, exe)
-    for (sh_, cfg, blog) in build_fail:
+    for (sh_, cfg, blog) in {c: (s_, c, l) for (s_, c, l) in reversed(build_fail)}.values():
         rep.violation("submdspan driver shard %s no longer builds in configuration %s" % (sh_, cfg),
                       {"obligation": "corr:sub/build/%s/%s" % (sh_, cfg), "log": blog[-3000:], "signature": "build:sub:%s" % cfg}, True)
     evaluations, flagged, nontriv = 0, [], set()
